@@ -42,6 +42,9 @@ class Explorer:
                 "core::option::Option::ok_or", "core::result::Result::ok", "core::option::Option::copied", "core::option::Option::cloned"):
             # these keep Some/Ok-ness of their receiver
             return self.is_some_term(x[2][0], depth + 1)
+        if x[0] == "call" and isinstance(x[1], str) and len(x[2]) == 2 and core.callee_base(x[1]) in ("core::bool::then", "core::bool::then_some"):
+            # c.then(f) / c.then_some(v) is Some exactly when c holds
+            return self.eval_term(x[2][0], depth + 1)
         if x[0] == "agg" and x[2] in ("Some", "Ok"):
             return True
         if x[0] == "agg" and x[2] in ("None", "Err"):
